@@ -206,7 +206,7 @@ def gen_cases(ctx):
     rng = ctx.rng
     shapes = option_shapes(ctx)
     # 1. one claim x every value x every option shape (time does not matter: fixed now)
-    names_full = ["sub", "aud"] if ctx.quick else ["iss", "sub", "aud", "jti", "priv"]
+    names_full = ["sub", "aud"] if ctx.quick else ["sub", "aud", "priv"]
     for name in names_full:
         for v in VALUES:
             # quick: every shape with at most two members + a random 60 of the others (rotates with the seed)
@@ -282,9 +282,9 @@ def gen_cases(ctx):
                 [1, 0, "x", "", "ab", [], [1], ["a"], {}, {"a": 1}, 1.5, None, True, [["a"]], [None], "a", 5, 0.0]))
         return o
 
-    for i in range(ctx.scale(4000, 150000)):
-        now = rng.choice(NOWS + [rng.randrange(0, 2 ** 33)])
-        lw = rng.choice(LEEWAYS + [None, rng.randrange(0, 1000)])
+    for i in range(ctx.scale(4000, 60000)):
+        now = rng.choice(NOWS + [rng.randrange(0, 2 ** 33), -7])
+        lw = rng.choice(LEEWAYS + [None, rng.randrange(0, 1000), -2])
         L = 0 if lw is None else lw
         cn = rng.sample(names, rng.randrange(0, 6))
         claims = {n: rnd_value(n, now, L) for n in cn}
@@ -307,14 +307,18 @@ def gen_cases(ctx):
 def check_one(ctx, tag, now, lw, opts, claims, dist):
     """runs the implementation on one input, applies the direct oracle; returns the Coq case term"""
     L = 0 if lw is None else lw
+    o_rep, c_rep = rep(opts), rep(claims)
     res, pure = run_impl(now, lw, opts, claims)
     cls = None if res[0] == "ok" else exn_class(res[1])
-    dom = all(wf_option(o) for o in opts.values()) and all(is_json(v) for v in claims.values())
-    acc_s = acc_l = False
-    replay = {"now": now, "leeway": lw, "options": rep(opts), "claims": rep(claims),
+    replay = {"now": now, "leeway": lw, "options": o_rep, "claims": c_rep,
               "impl": "returned" if cls is None else cls}
     if not pure:
-        ctx.violation({"kind": "claims-modified"}, "validate modified its arguments: options=%s claims=%s" % (rep(opts), rep(claims)), replay)
+        ctx.violation({"kind": "claims-modified"},
+                      "validate(now=%r, leeway=%r) modified its arguments: options %s -> %s, claims %s -> %s"
+                      % (now, lw, o_rep, rep(opts), c_rep, rep(claims)), replay)
+        opts, claims = json.loads(o_rep, parse_constant=float), json.loads(c_rep, parse_constant=float)
+    dom = all(wf_option(o) for o in opts.values()) and all(is_json(v) for v in claims.values())
+    acc_s = acc_l = False
     if dom:
         acc_s = spec_accepts(now, L, opts, claims, True)
         acc_l = spec_accepts(now, L, opts, claims, False)
@@ -350,9 +354,9 @@ def check_one(ctx, tag, now, lw, opts, claims, dist):
                               dict(replay, claims2=rep(c2)))
     dist[tag] = dist.get(tag, 0) + 1
     dist["outcome:" + (cls or "ok")] = dist.get("outcome:" + (cls or "ok"), 0) + 1
-    ctx.note_case((now, lw, rep(opts), rep(claims)))
+    ctx.note_case((now, lw, o_rep, c_rep))
     expect = "(Ok tt)" if cls is None else "(Err %s)" % c_exn(cls)
-    return "CVal %s %s %s %s %s %s %s %s" % (c_Z(now), c_opt(lw, c_Z), c_opts(opts), c_claims(claims), expect,
+    return cls or "returned", "CVal %s %s %s %s %s %s %s %s" % (c_Z(now), c_opt(lw, c_Z), c_opts(opts), c_claims(claims), expect,
                                              c_bool(dom), c_bool(acc_s), c_bool(acc_l))
 
 
@@ -367,39 +371,44 @@ def check_time_numbers(ctx, now, lw, name, T):
 
 
 def check_current_time(ctx):
-    """with no explicit now the current time is used (implementation only; 5 s slack)"""
+    """with no explicit now the current time is used (implementation only): the instant taken is
+    bracketed exactly by two clock readings, the probes lie 300 s outside the bracket"""
     from joserfc.rfc7519.registry import JWTClaimsRegistry
     from joserfc import errors
-    t0 = int(time.time())
-    probes = [({"exp": t0 - 30}, errors.ExpiredTokenError), ({"exp": t0 + 30}, None), ({"nbf": t0 + 30}, errors.InvalidTokenError),
-              ({"nbf": t0 - 30}, None), ({"iat": t0 + 30}, errors.InvalidTokenError), ({"iat": t0 - 30}, None)]
     for leeway in (None, 10):
-        for claims, want in probes:
+        for explicit_none in (False, True):
             kw = {} if leeway is None else {"leeway": leeway}
-            for explicit_none in (False, True):
-                reg = JWTClaimsRegistry(now=None, **kw) if explicit_none else JWTClaimsRegistry(**kw)
-                ok_now = isinstance(reg.now, int) and not isinstance(reg.now, bool) and t0 <= reg.now <= t0 + 5
+            t0 = int(time.time())
+            reg = JWTClaimsRegistry(now=None, **kw) if explicit_none else JWTClaimsRegistry(**kw)
+            t1 = int(time.time())
+            ok_now = isinstance(reg.now, int) and not isinstance(reg.now, bool) and t0 <= reg.now <= t1
+            probes = [({"exp": t0 - 300}, errors.ExpiredTokenError), ({"exp": t1 + 300}, None),
+                      ({"nbf": t1 + 300}, errors.InvalidTokenError), ({"nbf": t0 - 300}, None),
+                      ({"iat": t1 + 300}, errors.InvalidTokenError), ({"iat": t0 - 300}, None)]
+            for claims, want in probes:
                 try:
                     reg.validate(dict(claims)); got = None
                 except Exception as e:  # noqa
                     got = type(e)
-                ctx.note_case(("now=None", leeway, rep(claims), explicit_none))
+                ctx.note_case(("now=None", leeway, sorted(claims), explicit_none, want and want.__name__))
                 if not ok_now or got is not want:
                     ctx.violation({"kind": "current-time-not-used"},
-                                  "JWTClaimsRegistry(now omitted/None, leeway=%r): now=%r at time %d; claims %s -> %s, expected %s"
-                                  % (leeway, reg.now, t0, rep(claims), got and got.__name__, want and want.__name__),
+                                  "JWTClaimsRegistry(now omitted/None, leeway=%r): now=%r, clock %d..%d; claims %s -> %s, expected %s"
+                                  % (leeway, reg.now, t0, t1, rep(claims), got and got.__name__, want and want.__name__),
                                   {"now": None, "leeway": leeway, "options": "{}", "claims": rep(claims),
                                    "offset_from_current_time": {k: v - t0 for k, v in claims.items()},
                                    "impl": got.__name__ if got else "returned"})
 
 
 def run(ctx):
-    ok, log = ctx.prove()
+    ok, log = ctx.prove(extra_targets=["model/C10Cases.vo"])
     cases, meta = [], []
     dist = {}
     for tag, now, lw, opts, claims in gen_cases(ctx):
-        cases.append(check_one(ctx, tag, now, lw, opts, claims, dist))
-        meta.append((tag, now, lw, rep(opts), rep(claims)))
+        o_rep, c_rep = rep(opts), rep(claims)
+        impl, term = check_one(ctx, tag, now, lw, opts, claims, dist)
+        cases.append(term)
+        meta.append((tag, now, lw, o_rep, c_rep, impl))
     # directed sweep of the never-accept laws on numeric representations
     n_sweep = 0
     for now in NOWS + [2 ** 53 + 1, ctx.rng.randrange(2, 2 ** 34)]:
@@ -422,14 +431,14 @@ def run(ctx):
         ctx.sample({"input": meta[i], "coq_case": cases[i][:300]})
 
     ev = lib.CoqEval(["From Model Require Import Base PyVal C10Claims C10Spec C10Cases."], "c10case", "c10_check", "c10_show",
-                     shard=500, max_chars=120000)
-    res = ev.run(cases)
+                     shard=max(500, min(2500, len(cases) // 16 + 1)), max_chars=600000)
+    res = ev.run(cases, timeout=ctx.scale(600, 1500))
     ctx.coverage["traces_validated_against_impl"] = res["evaluated"]
     ctx.coverage["disagreements_checked"] = len(res["failing"])
     direct = len(ctx.violations)
     shown = set()
     for i in res["failing"]:
-        tag, now, lw, o, c = meta[i]
+        tag, now, lw, o, c, impl = meta[i]
         key = tag
         if key in shown or len(shown) >= 12:
             continue
@@ -437,7 +446,8 @@ def run(ctx):
         ctx.violation({"kind": "correspondence", "stream": tag},
                       "model (or Coq Spec vs its transcription) and implementation disagree on now=%r leeway=%r options=%s claims=%s"
                       % (now, lw, o, c),
-                      {"now": now, "leeway": lw, "options": o, "claims": c, "case": cases[i],
+                      {"now": now, "leeway": lw, "options": o, "claims": c, "impl": impl, "case": cases[i],
+                       "model_output (verdict, in-domain, Spec strict, Spec lenient)": res["shows"].get(max([k for k in res["shows"] if k <= i], default=-1), "")[:600],
                        "no_failing_input_found": direct == 0,
                        "broken": "correspondence model/C10Cases.v:c10_check vs joserfc.rfc7519.registry"})
     for si, err in res["errors"]:
@@ -450,7 +460,7 @@ def run(ctx):
     ctx.assumptions += [
         "Python's ==, `in`, truthiness and int/float comparison are modelled by PyVal.v (py_eq, py_in, py_truth, flt_cmp_Z); validated by the differential run only",
         "a keyword-argument dict / claims dict is an association list with unique keys; iteration order = insertion order",
-        "time.time() (now omitted) is checked on the implementation only, with 5 s slack",
+        "time.time() (now omitted) is checked on the implementation only (instant bracketed by two clock readings)",
         "Spec readings R1-R6 (C10Spec.v header): booleans equal 0/1 (Python ==); {} requests nothing; aud: values over value, blank/empty request = no audience requested",
     ]
     if not ctx.quick:
@@ -471,10 +481,15 @@ def replay(path):
     res, pure = run_impl(r.get("now"), r.get("leeway"), opts, claims)
     got = "returned" if res[0] == "ok" else exn_class(res[1])
     print("implementation now:", got, "| recorded:", r.get("impl"), "| arguments unchanged:", pure)
-    if r.get("now") is not None and all(wf_option(o) for o in opts.values()) and all(is_json(v) for v in claims.values()):
+    now = r["now"] if r.get("now") is not None else int(time.time())
+    if all(wf_option(o) for o in opts.values()) and all(is_json(v) for v in claims.values()):
         L = r.get("leeway") or 0
-        acc_s, acc_l = spec_accepts(r["now"], L, opts, claims, True), spec_accepts(r["now"], L, opts, claims, False)
-        print("statement: accepts=%s (exp=now-leeway allowed: %s), violated=%s" % (acc_s, acc_l, violated_clauses(r["now"], L, opts, claims, True)))
-        if (got == "returned" and acc_l) or (got != "returned" and not acc_s and got.split(" ")[-1] in spec_classes(r["now"], L, opts, claims)):
+        acc_s, acc_l = spec_accepts(now, L, opts, claims, True), spec_accepts(now, L, opts, claims, False)
+        print("statement: accepts=%s (exp=now-leeway allowed: %s), violated=%s" % (acc_s, acc_l, violated_clauses(now, L, opts, claims, True)))
+        if (got == "returned" and acc_l) or (got != "returned" and not acc_s and got.split(" ")[-1] in spec_classes(now, L, opts, claims)):
+            print("the implementation's verdict agrees with the statement on this input")
             return 0 if pure else 1
+        print("the implementation's verdict contradicts the statement on this input")
+    else:
+        print("input outside the statement's domain (malformed request or non-JSON claim): only the model comparison applies")
     return 1
